@@ -36,7 +36,8 @@ CHECKS = {
             "DESIGN.md 8.C06"),
     "C07": ("proof",
             "Coq theorems (Props/C07.v: c07_results, c07_ledger, c07_ledger_final, c07_no_dup, c07_no_resurrection, "
-            "c07_next_success, c07_frame_after) about Model/Writer.v for EVERY fault script (ok/error/interrupted per "
+            "c07_next_success, c07_frame_after, c07_scenario) about Model/Writer.v (c07_scenario: the same ledger for the socket "
+            "scenarios of Model/Sock.v, where the listener's state re-dictates the fault script before every call) for EVERY fault script (ok/error/interrupted per "
             "attempted write): results are Ok or the error of a write made during that call, never a panic; written ++ "
             "pending = acknowledged fitting metrics in order at every moment; no duplicates; an emit that failed is never "
             "written; framing unaffected.  Tied to io.rs by the correspondence check with exhaustive fault placement at "
